@@ -3,14 +3,58 @@ package main
 import (
 	"fmt"
 	"os"
+	"sort"
 	"strings"
 
 	"verif/harness/core"
 	"verif/harness/props"
 )
 
+// probe38 <id-prefix>            lists the failing programs whose id starts with the prefix ("<corpus>:<prefix>" restricts to one corpus)
+// probe38 -sigs <corpus> [-v]    runs one corpus and groups the mismatches by signature
 func main() {
 	_ = core.VerifDir
+	if os.Args[1] == "-why" {
+		m := props.C38ProbeWhy(os.Args[2])
+		var ks []string
+		for k := range m {
+			ks = append(ks, k)
+		}
+		sort.Strings(ks)
+		for _, k := range ks {
+			fmt.Printf("%6d  %q\n", m[k], k)
+		}
+		return
+	}
+	if os.Args[1] == "-sigs" {
+		type ex struct {
+			n                  int
+			id, src, want, got string
+		}
+		m := map[string]*ex{}
+		total := props.C38ProbeSigs(os.Args[2], func(sig, id, src, want, got string) {
+			if m[sig] == nil {
+				m[sig] = &ex{id: id, src: src, want: want, got: got}
+			}
+			m[sig].n++
+		})
+		var sigs []string
+		for s := range m {
+			sigs = append(sigs, s)
+		}
+		sort.Strings(sigs)
+		bad := 0
+		for _, s := range sigs {
+			e := m[s]
+			bad += e.n
+			fmt.Printf("%5d  %s\n", e.n, s)
+			if len(os.Args) > 3 {
+				fmt.Printf("\t%s\n\tgo:      %s\n\tclassic: %s\n%s\n", e.id, e.want, strings.ReplaceAll(e.got, "\n", " "), e.src)
+			}
+		}
+		fmt.Printf("programs %d, mismatches %d, signatures %d\n", total, bad, len(sigs))
+		return
+	}
 	props.C38Probe(os.Args[1], func(id, line, want, got string) {
 		fmt.Printf("%s\t%s\n\tgo:      %s\n\tclassic: %s\n", id, line, want, strings.ReplaceAll(got, "\n", " "))
 	})
